@@ -167,7 +167,7 @@ def check(run):
                'operations outside the owner classes hold owners by value, so unwinding destroys them through the owners\' destructors')
     nex = owner_faults(run, m, F, E)
     run.floor('exceptional exits analysed (failing operator new[] inside owners)', nex, 30)
-    run.floor('noexcept boundaries', noexcept_audit(run, m, F), 10)
+    run.floor('noexcept boundaries', noexcept_audit(run, m, F), 1)
     run.floor('raw allocation/release sites', alloc_sites(run, m, F), 30)
     run.floor('library destructors', destructors(run, m, F, E), 8)
     run.floor('landing pads', landing_pads(run, m, F), 100)
